@@ -16,8 +16,8 @@ CHECKS = {
          'plus match/match_index/span checks on the real object.',
          'Regex semantics enter as an abstract leftmost-search interface (CPython re is trusted to satisfy it; validated differentially).', '4/C02'),
  'C03': ('Theorems C03.* (history_eq_naive: for every history, chunking, window and searcher kind the real procedure equals naive full '
-         're-search; incremental_find_eq_full = the straddling lemma), unbounded. Tie: same harness, real vs Lean model vs independent '
-         'Python naive oracle.', 'searchwindowsize = 0 is outside the documented domain and excluded.', '4/C03'),
+         're-search; incremental_find_eq_full = the straddling lemma; later_calls_depend_only_on_pending_text), unbounded. Tie: same harness, real vs Lean model vs independent '
+         'Python naive oracle; polling loops (a call repeated verbatim after other calls) and a second live object preparing the same patterns in between.', 'searchwindowsize = 0 is outside the documented domain and excluded.', '4/C03'),
  'C04': ('Theorems C04.* (eof_outcome, timeout_outcome, marker index specs, pending_match_beats_eof_timeout, eof_clears, before_holds_all). '
          'Tie: scripted transport over marker positions and entry points; outcome classes compared with the model and the naive oracle.',
          'Sticky EOF of the real transports is validated in C06; diagnostic-message states are exercised on real spawn classes.', '4/C04'),
@@ -33,7 +33,7 @@ CHECKS = {
          'bytes chunk independence assumes the codec chunk law (validated in C07).', '4/C18'),
  'C19': ('Theorems C19.*: shape_preserved for every op and argument, cell-level characterisation of put/fill/insert/scroll/erase, '
          'ops_refine_reference (any op sequence = cell-by-cell reference grid), accessor lemmas; proved for all screen sizes and sequences. '
-         'Tie: Lean model vs pexpect.screen vs an independent Python reference grid on exhaustive short sequences and random sequences.',
+         'Tie: Lean model vs pexpect.screen vs an independent Python reference grid on exhaustive short sequences and random sequences, one case in four with a second live screen kept busy.',
          'Characters are single code points; rows, cols >= 1; public attributes are not assigned by the caller.', '4/C19'),
  'C20': ('Theorems C20.* about the decision logic of compile_pattern_list / expect_exact preparation over pattern forms (forms_equivalent, '
          'single_eq_singleton, dotall/ignorecase, compiled_flags_kept, other_rejected_before_consumption). Tie: compile_pattern_list output vs the '
@@ -55,11 +55,12 @@ CHECKS = {
          'World models are assumptions about Linux, validated by the same runs. A blocking waitpid on a hung-up live child is forced to finish by the harness.', '4/C06'),
  'C07': ('Theorems C07.*: deliver_eq_whole (any chunking through one persistent decoder = decoding the whole stream, for every decoder with the '
          'chunk law), delivered_eq_decode_whole on the session model, utf8_any_chunking (proved UTF-8 instance incl. round trip), bytes_mode_identity. '
-         'Tie: every cut point / sampled cuts on the four real transports and the asyncio path against CPython\'s whole-stream incremental decoding.',
+         'Tie: every cut point / sampled cuts on the four real transports and the asyncio path against CPython\'s whole-stream incremental decoding; two live objects read in turn.',
          'CPython codecs are assumed to satisfy the chunk law (validated on every run); ill-formed input is judged against the incremental decoder fed at once.', '4/C07'),
  'C08': ('Theorems C08.*: peer_receives_concat (op by op, one persistent encoder, one linesep per sendline, one byte per control), '
-         'text_stream_encoded_once, send_returns_written, control table, UTF-8 round trip. Tie: send histories on the four transports with a peer that '
-         'reports byte for byte what it received.',
+         'text_stream_encoded_once, send_returns_written, the control table for every character code (control_letters, control_range, control_unknown), '
+         'peer_decodes_to_text_sent (a utf-8 peer recovers exactly the text sent). Tie: send histories on the four transports with a peer that '
+         'reports byte for byte what it received; every printable character through sendcontrol; two live objects sending in turn.',
          'A blocking write accepts the whole buffer when the peer reads.', '4/C08'),
  'C11': ('Theorems C11.*: logs_are_transcript (logfile = reads and sends in operation order, logfile_read / logfile_send the two projections), '
          'logfile_read_eq_delivered, every_write_flushed, send_logged_once_under_write_faults (Sess.runF: whatever a non-blocking descriptor does with each write - takes it, refuses it, takes a prefix - the logs are those of the fault-free history), '
